@@ -27,7 +27,7 @@ func init() {
 		block: 128,
 		assumptions: []string{
 			"reference decoder R-YSTR (harness/internal/yang/ystr.go) transcribes RFC 6020 section 6.1.3: tab = 8 columns, strip up to and including the column of the opening quote, strip blanks before a line break",
-			"not asserted: a backslash followed by anything but n t \" \\ (undefined in YANG 1.0) and values that depend on whether escapes are substituted before or after whitespace trimming (RFC 6020 does not fix the order)",
+			"a backslash followed by any other character stays, with that character (only the four escapes are substituted); not asserted: \\r (read as a carriage return by the implementation; RFC 6020 is silent), a backslash before a blank or a line break, and values that depend on whether escapes are substituted before or after whitespace trimming (RFC 6020 does not fix the order)",
 		},
 		minEvents: []string{"arguments_checked", "double_quoted_multi_line", "concatenations", "tab_in_indent"},
 	}})
@@ -113,7 +113,10 @@ func c08Double(r *core.Rng, approxCol int) string {
 	var b strings.Builder
 	n := r.Range(0, 8)
 	for i := 0; i < n; i++ {
-		switch r.Intn(14) {
+		switch r.Intn(15) {
+		case 14:
+			// a backslash in front of any other character: both stay (only four escapes are substituted)
+			b.WriteString(core.Pick(r, []string{`\'`, `\d`, `\.`, `\/`, `\x41`, `\+`, `\0`, `\N`, `\T`, `\é`, `\;`, `\{`, `\*`}))
 		case 0:
 			b.WriteString(`\n`)
 		case 1:
